@@ -757,6 +757,10 @@ def persist(it, v):
     t = v.get() if isinstance(v, RefV) else v
     if isinstance(t, PyIter):
         return t
+    if isinstance(t, LazyV) and it.uc:
+        # under-constrained mode: a collection returned by a havoc'd callee is iterated as empty (recorded in the trace)
+        it.trace.append(('<iterate-unknown-collection>', [t], None, tuple(it.stack)))
+        return PyIter((x for x in []))
     if isinstance(t, Agg) and t.name in _STATEFUL_RANGES and all(isinstance(f, IntV) for f in t.fields):
         return t
     if isinstance(t, Agg) and t.kind == 'struct' and it.resolve('<%s as std::iter::Iterator>::next' % t.name, 1) is not None:
